@@ -5,6 +5,17 @@ BASELINE_CMD = ("cd /repo && /venv/bin/python -m pytest -ra -q -p no:cacheprovid
 
 # property id -> dict(level, technique, text, note, design_ref)
 CHECKS = {
+    'C01': dict(
+        level='exploration',
+        technique='exhaustive product enumeration of (model, batch_size, n_samples, objective form, seed) over real '
+                  'Rejection runs, each compared with an independent recomputation of every consumed batch',
+        text='Every combination inside the stated bound is run on the real sampler (no sampling of the space); '
+             'multiset of returned discrepancies, row membership with multiplicity across all outputs, ordering, '
+             'threshold, n_sim and budget batch counts are decided per run against freshly recomputed batches. '
+             'Tied and infinite discrepancies, (bs,1)-shaped and adaptive (nested) discrepancies are alphabet symbols.',
+        note='Trusted: purity of seeded batch generation (C02) for the reference rows; simulator-invocation counter '
+             'with max_parallel_batches=1 as the count of consumed batches. Bounded to toy models and small sizes.',
+        design_ref='4 C01'),
     'C15': dict(
         level='model_checking',
         technique='explicit-state BFS to closure over the real get_sub_seed cache states (all index requests in every '
